@@ -118,7 +118,7 @@ def _roundtrip(ctx, f, T, quiet=False):
         ctx.evaluated(what='repr')
     if r != "formula('" + s + "')":
         problems.append({'kind': 'repr', 'msg': 'repr is %r, str is %r' % (r[:200], s[:200])})
-    name = f.__dict__.get('name')
+    name = getattr(f, 'name', None)
     if name:
         if not quiet:
             ctx.evaluated(what='name')
@@ -230,7 +230,7 @@ def _judge(ctx, f, T, case, source):
                       % (repr(f.structure)[:300], ' '.join(lines[1:4])[:400]),
                       kinds=['contract'], source=source)
         return
-    feats = _features(f, s) if not f.__dict__.get('name') else []
+    feats = _features(f, s) if not getattr(f, 'name', None) else []
     for ft in feats:
         ctx.count('feature.' + ft)
     if any(a.symbol in ('D', 'T') for a in f.atoms):
@@ -314,6 +314,8 @@ def check_mixture(ctx, case):
 
 CHECKS = {'parsed': check_parsed, 'program': check_program, 'mixture': check_mixture}
 
+LINE_LABELS = ('str.isotope-tag', 'str.plain-symbol', 'str.charge-tag', 'str.group-count-1', 'str.group-counted')
+
 
 # ---------------------------------------------------------------- monitors
 def setup(ctx):
@@ -322,6 +324,7 @@ def setup(ctx):
     from periodictable import core, formulas, mass, density
     from ..ref.masses import MassModel
     from ..statemon import Reach
+    from ..gen.formulas import watch_private
 
     _s['model'] = MassModel()
     _s['me'] = pt.constants.electron_mass
@@ -331,31 +334,39 @@ def setup(ctx):
     _s['tables'] = {'public': pt.elements, 'private': T}
 
     reach = Reach()
-    reach.watch(formulas._str_atoms, '_str_atoms').watch(formulas.Formula.__str__, 'Formula.__str__')
+    reach.watch(formulas.Formula.__str__, 'Formula.__str__')
     reach.watch(formulas.Formula.__repr__, 'Formula.__repr__')
-    reach.watch(formulas._mix_by_weight_pairs, '_mix_by_weight_pairs').watch(formulas._mix_by_volume_pairs, '_mix_by_volume_pairs')
+    # the printer _str_atoms and the two pair mixers are PRIVATE helpers: optional reach counters / line anchors /
+    # contract (requirements waived when the name is gone from this tree)
     lines = [('ret += "%s[%d]"%(fragment.symbol, fragment.isotope)', 'str.isotope-tag'),
              ('ret += fragment.symbol', 'str.plain-symbol'),
              ("ret += '{'+value+sign+'}'", 'str.charge-tag'),
              ('piece = _str_atoms(fragment)', 'str.group-count-1'),
              ('piece = "(%s)', 'str.group-counted')]
+    str_atoms = watch_private(ctx, reach, formulas, '_str_atoms',
+                              waived=['contract._str_atoms'] + ['reach.' + label for _, label in lines])
+    watch_private(ctx, reach, formulas, '_mix_by_weight_pairs')
+    watch_private(ctx, reach, formulas, '_mix_by_volume_pairs')
     for text, label in lines:
+        if not ctx.replay:
+            ctx.require('reach.' + label, 1, 'the workload must take this branch of the printer')
+        if str_atoms is None:
+            continue                # waived together with the function
         try:
-            reach.watch_line_matching(formulas._str_atoms, text, label)
-            if not ctx.replay:
-                ctx.require('reach.' + label, 1, 'the workload must take this branch of the printer')
-        except LookupError:
-            ctx.note('printer line %r not found in this tree; branch counter %s not available' % (text, label))
+            reach.watch_line_matching(str_atoms, text, label)     # text not found: Reach.missing -> waived
+        except Exception:           # no source text available
+            reach.missing.add(label)
     _s['reach'] = reach
-    stats = _s['stats'] = {'evals': 0}
+    stats = _s['stats'] = {'evals': 0, 'unrecognised': 0}
 
     token = re.compile(r'[A-Z][a-z]?(\[[0-9]+\])?(\{[0-9]*[+-]\})?|[()]|[0-9.e+-]+')
 
     def printed_form_is_balanced_token_text(result):
         """A str without white space, made of symbol/tag/bracket/number tokens, brackets balanced."""
-        stats['evals'] += 1
         if not isinstance(result, str):
-            return False
+            stats['unrecognised'] += 1      # the private helper returns something else in this tree: not judged
+            return True
+        stats['evals'] += 1
         pos, depth = 0, 0
         while pos < len(result):
             m = token.match(result, pos)
@@ -370,7 +381,12 @@ def setup(ctx):
             pos = m.end()
         return depth == 0
 
-    formulas._str_atoms = icontract.ensure(printed_form_is_balanced_token_text, error=PrintedFormBroken)(formulas._str_atoms)
+    if str_atoms is not None:
+        def judged(*args, **kw):
+            return str_atoms(*args, **kw)
+        judged.__name__ = '_str_atoms'
+        judged.__doc__ = getattr(str_atoms, '__doc__', None)
+        formulas._str_atoms = icontract.ensure(printed_form_is_balanced_token_text, error=PrintedFormBroken)(judged)
     reach.start()
     if not ctx.replay:
         for name in ('_str_atoms', 'Formula.__str__', 'Formula.__repr__', '_mix_by_weight_pairs', '_mix_by_volume_pairs'):
@@ -387,6 +403,15 @@ def finish(ctx):
     _s['reach'].stop()
     _s['reach'].export(ctx)
     ctx.count('contract._str_atoms', _s['stats']['evals'])
+    from ..gen.formulas import waive_dead
+    waive_dead(ctx, '_str_atoms', ['contract._str_atoms'] + ['reach.' + label for label in LINE_LABELS], 'reach.Formula.__str__')
+    waive_dead(ctx, '_mix_by_weight_pairs', [], 'mixture.weight')
+    waive_dead(ctx, '_mix_by_volume_pairs', [], 'mixture.volume')
+    if _s['stats']['unrecognised']:
+        from ..gen.formulas import waive_unjudged
+        ctx.count('contract._str_atoms.unrecognised_call', _s['stats']['unrecognised'])
+        waive_unjudged(ctx, 'contract._str_atoms', _s['stats']['evals'], _s['stats']['unrecognised'],
+                       'the private formulas._str_atoms')
     n = sum(ctx.counters.get('formulas.' + k, 0) for k in ('parsed', 'arithmetic', 'mixture'))
     if n:
         ctx.info['share_exponent_band'] = round(ctx.counters.get('feature.exp', 0) / n, 4)
